@@ -14,7 +14,7 @@ import (
 func init() {
 	register(&Property{
 		ID:      "C14",
-		Explain: "FOLD. wsflate.Extension.Negotiate is evaluated on the whole grid server configuration (2x2x9x9) x parsed offer (2x2x9x10) x already-accepted, with Parameters.Parse replaced by 'the offer's fields take any value of the validated domain' and Option() by a record of the four answer fields; every accepted cell's answer is compared with RFC 7692 7.1: server_max_window_bits present and <= the requested limit, client_max_window_bits only if offered and <= an offered value, server_no_context_takeover whenever asked, all window values in 8..15; at most one offer is accepted. The validated domain itself is derived by folding bitsFromASCII. Parameters.Parse is evaluated on scripted parameter lists (every pair of the four names + an unknown one x value empty / valid / out of range / not a number): unknown, duplicated and ill-valued parameters are errors and each parameter sets exactly its own field. Option() is evaluated per field against the RFC parameter names, and the names Parse accepts are the names Option emits. Extension.Reset clears accepted state and parsed parameters. negotiateExtensions (the server's scan that drives the negotiator) is folded; param-error: paramError returns a non-nil error for every reason string its callers pass; Reset returns every unexported field other than the configuration to its zero value. Both upgrader decision tables run here: a refusal by the negotiator ends the handshake, also when a later header line would negotiate successfully.",
+		Explain: "FOLD. wsflate.Extension.Negotiate is evaluated on the whole grid server configuration (2x2x9x9) x parsed offer (2x2x9x10) x already-accepted, with Parameters.Parse replaced by 'the offer's fields take any value of the validated domain' and Option() by a record of the four answer fields; every accepted cell's answer is compared with RFC 7692 7.1: server_max_window_bits present and <= the requested limit, client_max_window_bits only if offered and <= an offered value, server_no_context_takeover whenever asked, all window values in 8..15; at most one offer is accepted. The validated domain itself is derived by folding bitsFromASCII. Parameters.Parse is evaluated on scripted parameter lists (every pair of the four names + an unknown one x value empty / valid / out of range / not a number): unknown, duplicated and ill-valued parameters are errors and each parameter sets exactly its own field. Option() is evaluated per field against the RFC parameter names, and the names Parse accepts are the names Option emits. Extension.Reset clears accepted state and parsed parameters. negotiateExtensions (the server's scan that drives the negotiator) is folded; param-error: paramError returns a non-nil error for every reason string its callers pass; Reset returns every unexported field other than the configuration to its zero value. Both upgrader decision tables run here: a refusal by the negotiator ends the handshake, also when a later header line would negotiate successfully. first-acceptable: on the grid, an offer to which the configured parameters are a legal answer is accepted, not passed over (left open: a value-less client_max_window_bits against a configured value, which the code declines and the RFC allows either way).",
 		Trusted: []string{"go/ssa + go/types", "the checker's abstract evaluator", "httphead option scanning and httphead.IntFromASCII (atoms)"},
 		Run:     runC14,
 	})
